@@ -129,6 +129,9 @@ def iter_cases(ctx, conf, init_variants=True, want_random=True, with_reuse=True,
             kind = rng.choice(("char", "tuple", "bytes", "falsy_obj")) if j == 2 else rng.choice(tok.KIND_NAMES)
         elif j == 3:
             delivery, kind = "generator|threads=alternate", rng.choice(tok.KIND_NAMES)
+            if i % 12 == 3:
+                v1 = G.structured_random(rng, params, 12)[:12]
+                delivery += "|prior=" + "".join("A" if x else "a" for x in v1)
         else:
             delivery, kind = f"{rng.choice(tok.DELIVERY)}|switch={rng.randint(1, max(1, len(v)))}", rng.choice(tok.KIND_NAMES)
         c += 1
